@@ -41,8 +41,8 @@ def program_output(res):
     if res["phase"] == "interp" and res["rc"] != 0:
         out = re.sub(r"^(#\d+ \S+ in <[^>]*> at unit \[[^\]]*\]|\.\.\.)\n", "", out, flags=re.M)
     # a failed assertion names its unit, line and source text: the specification writes "@@" for them
-    # (the quoted condition may be pretty-printed over several lines)
-    out = re.sub(r"^Assertion failed at .*?^(?=Unhandled Exception: RuntimeError)", "Assertion failed at @@\n", out, flags=re.M | re.S)
+    # (the generator keeps assertion conditions to one-line expressions: conditionals are pretty-printed over several lines)
+    out = re.sub(r"^Assertion failed at [^\n]*\n", "Assertion failed at @@\n", out, flags=re.M)
     return out
 
 
